@@ -360,23 +360,35 @@ func (pi *parseInterp) findAnchors() {
 			}
 		}
 	}
+	// advancers: result-less methods that change the parser only by fetching tokens, directly or through other
+	// advancers (a recovery routine may be composed: skip to the end of the line, then take the line break)
+	advancers := map[string]bool{}
+	for changed := true; changed; {
+		changed = false
+		for _, n := range names {
+			fd := pi.methods[n]
+			if advancers[n] || fetches[n] || !pi.mutates(fd.Body, 0) || fd.Type.Results != nil && len(fd.Type.Results.List) > 0 {
+				continue
+			}
+			only := true
+			ast.Inspect(fd.Body, func(x ast.Node) bool {
+				if call, ok := x.(*ast.CallExpr); ok {
+					if m, ok := pi.methodCall(call); ok && pi.mutates(pi.methods[m].Body, 0) && !fetches[m] && !advancers[m] {
+						only = false
+					}
+				}
+				return true
+			})
+			if only {
+				advancers[n] = true
+				changed = true
+			}
+		}
+	}
 	pi.quiet = true
 	for _, n := range names {
 		fd := pi.methods[n]
-		if fetches[n] || !pi.mutates(fd.Body, 0) || fd.Type.Results != nil && len(fd.Type.Results.List) > 0 {
-			continue
-		}
-		// calls only fetch methods
-		onlyFetch := true
-		ast.Inspect(fd.Body, func(x ast.Node) bool {
-			if call, ok := x.(*ast.CallExpr); ok {
-				if m, ok := pi.methodCall(call); ok && pi.mutates(pi.methods[m].Body, 0) && !fetches[m] {
-					onlyFetch = false
-				}
-			}
-			return true
-		})
-		if !onlyFetch {
+		if !advancers[n] {
 			continue
 		}
 		fr := &pFrame{fd: fd}
